@@ -28,6 +28,7 @@ CONSTANTS
   Marker(_),       \* Marker(p): the uninitialised-parameter value (-12345.67) in precision p
   Sentinel(_),     \* Sentinel(p): the unprovided-evaluator value (-1.33)
   NoSuchParam(_),  \* NoSuchParam(p): masa_get_param of an unknown name (-20)
+  One(_),          \* One(p): the number 1 (what the self-test fixture's init_var stores)
   InitDflt,        \* initial knowledge of default values (see dflt)
   UseMemo,         \* BOOLEAN: record evaluations in memo (history variable)
   \* value oracle: EvalAccept(p, sol, par, vec, fn, sig, args, cb, ret) -- is ret an acceptable result
@@ -77,7 +78,15 @@ Resolve(cs) ==
 
 ---------------------------------------------------------------------------------------
 (* Instances *)
-Fresh(n) == [sol |-> n, par |-> [k \in Pars(n) |-> Dflt], vec |-> [k \in Vecs(n) |-> DfltV]]
+\* A solution constructor registers every parameter (value: the marker) and then calls init_var(), which
+\* stores the defaults.  The constructors of the two self-test fixtures do NOT call init_var(): their
+\* parameters start as the marker.  broken: the fixture masa_test_function is "designed to fail" -- its
+\* init_var() sets one parameter to 1, fails to set an unknown one, fails to register a duplicate, bumps
+\* the registration count by hand and returns 2; from then on masa_sanity_check of THAT object is a fatal
+\* error (registration count mismatch).  Entry(n).initp = [ret, one, breaks] describes init_var of a
+\* fixture; for every other entry init_var stores the defaults and returns 0.
+Fresh(p, n) == [sol |-> n, par |-> [k \in Pars(n) |-> IF IsFixture(n) THEN Marker(p) ELSE Dflt],
+                vec |-> [k \in Vecs(n) |-> DfltV], broken |-> FALSE]
 
 Target(p)   == reg[p][sel[p]]
 HasSel(p)   == sel[p] # None
@@ -119,7 +128,7 @@ Init(p, api, h, cs, o) ==
      IF n = None
      THEN Fatal(o)                               \* registers nothing (C13)
      ELSE /\ Returned(o) /\ o.ret = 0 /\ Quiet(o)
-          /\ reg' = [reg EXCEPT ![p] = [x \in DOMAIN reg[p] \cup {h} |-> IF x = h THEN Fresh(n) ELSE reg[p][x]]]
+          /\ reg' = [reg EXCEPT ![p] = [x \in DOMAIN reg[p] \cup {h} |-> IF x = h THEN Fresh(p, n) ELSE reg[p][x]]]
           /\ sel' = [sel EXCEPT ![p] = h]
           \* the replaced instance and every rejected candidate are released (C19)
           /\ live' = [live EXCEPT ![p] = Cardinality(DOMAIN reg[p] \cup {h})]
@@ -165,14 +174,13 @@ GetDim(p, api, o) ==
      ELSE Fatal(o)
 
 ---------------------------------------------------------------------------------------
-(* Parameter store (C11).  Not specified for the two self-test fixtures. *)
-Usable(p) == HasSel(p) /\ ~IsFixture(Target(p).sol)
+(* Parameter store (C11).  The store of the two self-test fixtures is the same map (it lives in the base
+   class); what differs is their init_var (InitParam) and its consequence for Sanity. *)
 WithTarget(p, inst) == [reg EXCEPT ![p][sel[p]] = inst]
 
 SetParam(p, api, k, v, o) ==
   /\ Note("setp", p, api, <<k, v>>, o)
   /\ IF ~HasSel(p) THEN Fatal(o) ELSE
-     /\ ~IsFixture(Target(p).sol)
      /\ Returned(o)
      /\ IF k \in Pars(Target(p).sol)
         THEN /\ Quiet(o)
@@ -185,7 +193,6 @@ SetParam(p, api, k, v, o) ==
 GetParam(p, api, k, o) ==
   /\ Note("getp", p, api, <<k>>, o)
   /\ IF ~HasSel(p) THEN Fatal(o) ELSE
-     /\ ~IsFixture(Target(p).sol)
      /\ Returned(o)
      /\ IF k \in Pars(Target(p).sol)
         THEN /\ Quiet(o)
@@ -199,16 +206,24 @@ GetParam(p, api, k, o) ==
 InitParam(p, api, o) ==
   /\ Note("initp", p, api, <<>>, o)
   /\ IF ~HasSel(p) THEN Fatal(o) ELSE
-     /\ ~IsFixture(Target(p).sol)
-     /\ Returned(o) /\ o.ret = 0 /\ Quiet(o)
-     /\ reg' = WithTarget(p, Fresh(Target(p).sol))
+     /\ Returned(o)
+     /\ IF IsFixture(Target(p).sol)
+        THEN LET fi == Entry(Target(p).sol).initp IN
+             /\ o.ret = fi.ret
+             \* the failing init_var prints "MASA ERROR" (unknown name) and "MASA FATAL ERROR" (duplicate
+             \* registration) -- and RETURNS
+             /\ IF fi.ret = 0 THEN Quiet(o) ELSE {"FATAL", "ERROR"} \subseteq o.tags
+             /\ reg' = WithTarget(p, [Target(p) EXCEPT
+                                       !.par = [k \in DOMAIN @ |-> IF k \in fi.one THEN One(p) ELSE @[k]],
+                                       !.broken = @ \/ fi.breaks])
+        ELSE /\ o.ret = 0 /\ Quiet(o)
+             /\ reg' = WithTarget(p, Fresh(p, Target(p).sol))
      /\ UNCHANGED <<sel, live, status, dflt, memo>>
 
 \* masa_purge_default_param: every scalar parameter becomes the marker; vectors are untouched
 Purge(p, api, o) ==
   /\ Note("purge", p, api, <<>>, o)
   /\ IF ~HasSel(p) THEN Fatal(o) ELSE
-     /\ ~IsFixture(Target(p).sol)
      /\ Returned(o) /\ o.ret = 0 /\ Quiet(o)
      /\ reg' = WithTarget(p, [Target(p) EXCEPT !.par = [k \in Pars(Target(p).sol) |-> Marker(p)]])
      /\ UNCHANGED <<sel, live, status, dflt, memo>>
@@ -216,8 +231,9 @@ Purge(p, api, o) ==
 \* masa_sanity_check: 0 exactly when nothing is unset/empty; one warning per offender (o.warn)
 Sanity(p, api, o) ==
   /\ Note("sanity", p, api, <<>>, o)
-  /\ IF ~HasSel(p) THEN Fatal(o) ELSE
-     /\ ~IsFixture(Target(p).sol)
+  /\ IF ~HasSel(p) THEN Fatal(o)
+     ELSE IF Target(p).broken THEN Fatal(o)        \* the fixture's deliberate registration-count mismatch
+     ELSE
      /\ Returned(o) /\ Quiet(o)
      /\ LET bad == Unset(p, Target(p)) \cup EmptyVecs(p, Target(p)) IN
         /\ o.ret = IF bad = {} THEN 0 ELSE 1
@@ -229,7 +245,6 @@ Sanity(p, api, o) ==
 SetVec(p, api, k, v, o) ==
   /\ Note("setv", p, api, <<k, v>>, o)
   /\ IF ~HasSel(p) THEN Fatal(o) ELSE
-     /\ ~IsFixture(Target(p).sol)
      /\ Returned(o)
      /\ IF k \in Vecs(Target(p).sol)
         THEN /\ Quiet(o)
@@ -241,7 +256,6 @@ SetVec(p, api, k, v, o) ==
 GetVec(p, api, k, o) ==
   /\ Note("getv", p, api, <<k>>, o)
   /\ IF ~HasSel(p) THEN Fatal(o) ELSE
-     /\ ~IsFixture(Target(p).sol)
      /\ Returned(o)
      /\ IF k \in Vecs(Target(p).sol)
         THEN /\ Quiet(o) /\ o.ret = 0 /\ o.n = Len(o.v)
@@ -258,7 +272,6 @@ GetVec(p, api, k, o) ==
 DisplayParam(p, api, o) ==
   /\ Note("dispp", p, api, <<>>, o)
   /\ IF ~HasSel(p) THEN Fatal(o) ELSE
-     /\ ~IsFixture(Target(p).sol)
      /\ Returned(o) /\ o.ret = 0 /\ Quiet(o)
      /\ Len(o.out) = Cardinality(Pars(Target(p).sol))
      /\ {o.out[i].k : i \in 1..Len(o.out)} = Pars(Target(p).sol)
@@ -270,7 +283,6 @@ DisplayParam(p, api, o) ==
 DisplayVec(p, api, o) ==
   /\ Note("dispv", p, api, <<>>, o)
   /\ IF ~HasSel(p) THEN Fatal(o) ELSE
-     /\ ~IsFixture(Target(p).sol)
      /\ Returned(o) /\ o.ret = 0 /\ Quiet(o)
      /\ Len(o.out) = Cardinality(Vecs(Target(p).sol))
      /\ {o.out[i].k : i \in 1..Len(o.out)} = Vecs(Target(p).sol)
@@ -294,7 +306,7 @@ Eval(p, api, fn, sig, args, cb, o) ==
      /\ UNCHANGED <<reg, sel, live, status, dflt>>     \* never changes a parameter (C10, C15)
      /\ IF Provides(inst.sol, fn, sig)
         THEN /\ o.ret # Sentinel(p)                    \* C14
-             /\ (inst = Fresh(inst.sol) /\ ArgsRegular(inst.sol, fn, sig, args)) => o.fin   \* C14: finite at defaults
+             /\ (inst = Fresh(p, inst.sol) /\ ArgsRegular(inst.sol, fn, sig, args)) => o.fin   \* C14: finite at defaults
              /\ EvalAccept(p, inst.sol, [k \in DOMAIN inst.par |-> ParVal(p, inst, k)],
                            [k \in DOMAIN inst.vec |-> VecVal(p, inst, k)], fn, sig, args, cb, o.ret)
              /\ IF UseMemo
@@ -395,14 +407,16 @@ FatalOnlyIfMisuse ==
   [][InProc => (IsFatalOutcome(act'.o) =>
         \/ act'.name \notin {"init", "select", "list", "printid", "version", "testdefault"} /\ sel[ActP] = None
         \/ act'.name = "select" /\ act'.args[1] \notin DOMAIN reg[ActP]
-        \/ act'.name = "init" /\ Resolve(act'.args[2]) = None)]_vars
+        \/ act'.name = "init" /\ Resolve(act'.args[2]) = None
+        \* named deviation: the self-test fixture that corrupted its own registration count on purpose
+        \/ act'.name = "sanity" /\ sel[ActP] # None /\ reg[ActP][sel[ActP]].broken)]_vars
 NoUseBeforeInit ==
   [][InProc => (act'.name \notin {"init", "select", "list", "printid", "version", "testdefault", "start"} /\ sel[ActP] = None => IsFatalOutcome(act'.o))]_vars
 \* C12: re-initialising replaces by a fresh default instance and makes it the target
 ReinitFresh ==
   [][InProc => (act'.name = "init" /\ Returned(act'.o) =>
         /\ sel'[ActP] = act'.args[1]
-        /\ reg'[ActP][act'.args[1]] = Fresh(Resolve(act'.args[2])))]_vars
+        /\ reg'[ActP][act'.args[1]] = Fresh(ActP, Resolve(act'.args[2])))]_vars
 \* C11: set then get
 SetThenGet ==
   [][InProc => (act'.name = "getp" /\ act.name = "setp" /\ act.p = ActP /\ Returned(act'.o) /\ Returned(act.o)
